@@ -6,7 +6,7 @@
    Indexes are < 2^31-64 (IDXMAX) where stated. *)
 From Coq Require Import List NArith ZArith Bool Lia.
 From HV Require Import Gen.Tables Base.BSet Bitmap.BitmapModel Bitmap.BitmapSpec
-  Bitmap.BitmapBase Bitmap.BitmapOps Bitmap.BitmapQueries Bitmap.BitmapScan Bitmap.BitmapCompare.
+  Bitmap.BitmapBase Bitmap.BitmapOps Bitmap.BitmapQueries Bitmap.BitmapScan Bitmap.BitmapCompare Bitmap.BitmapWeight Bitmap.BitmapRange.
 Import ListNotations.
 Local Open Scope N_scope.
 
@@ -202,3 +202,26 @@ Theorem compare_first_with_fix_spec : forall r1 r2, wf r1 -> wf r2 ->
   Z.sgn (bm_compare_first_v true r1 r2) = sp_compare_first (abs r1) (abs r2).
 Proof. exact compare_first_fixed_spec. Qed.
 Print Assumptions compare_first_with_fix_spec.
+
+(* ranges: end = -1 means "to infinity"; end < begin (after the unsigned conversion) is a no-op *)
+Theorem set_range_refines : forall r b e, wf r -> b < IDXMAX -> (-1 <= e < Z.of_N IDXMAX)%Z ->
+  wf (bm_set_range r b e) /\ abs (bm_set_range r b e) = sp_range (abs r) true b e.
+Proof. exact bm_set_range_spec. Qed.
+Print Assumptions set_range_refines.
+Theorem clr_range_refines : forall r b e, wf r -> b < IDXMAX -> (-1 <= e < Z.of_N IDXMAX)%Z ->
+  wf (bm_clr_range r b e) /\ abs (bm_clr_range r b e) = sp_range (abs r) false b e.
+Proof. exact bm_clr_range_spec. Qed.
+Print Assumptions clr_range_refines.
+Example range_nonvacuous : abs (bm_clr_range (bm_set_range ex_fin2 60 (-1)) 100 70) = bs_union (abs ex_fin2) (bs_from 60).
+Proof. vm_compute. reflexivity. Qed.
+
+(* weight: number of members, -1 when infinite *)
+Theorem weight_spec : forall r, wf r -> bm_weight r = sp_weight (abs r).
+Proof. exact bm_weight_spec. Qed.
+Print Assumptions weight_spec.
+Theorem weight_is_cardinal : forall s n bound, bs_weight s = Some n -> N.size (fin s) <= N.of_nat bound ->
+  n = count_below bound s.
+Proof. exact weight_counts_members. Qed.
+Theorem nr_ulongs_spec : forall r, wf r -> bm_nr_ulongs r = sp_nr_ulongs (abs r).
+Proof. exact bm_nr_ulongs_spec. Qed.
+Print Assumptions nr_ulongs_spec.
